@@ -120,16 +120,19 @@ Proof.
     assert (F1 : wframe s s1) by (apply wframe_words; unfold s1; auto with sw).
     dstep (cas mw 0 1 s1) s2 prev. rewrite cas_snd, cas_fst.
     destruct (getw mw s1 =? 0) eqn:E0.
-    + set (a1 := set_lis (Some (snd (listen me s))) a).
+    + set (a1 := set_lis None (set_lis (Some (snd (listen me s))) a)).
+      set (sd := drop_listener me (snd (listen me s)) (setw mw 1 s1)).
+      assert (GD : getw mw sd = 1) by (unfold sd; rewrite getw_drop_listener, getw_setw_same; reflexivity).
       assert (T : ticket a1 = 0).
       { unfold ticket, a1, set_lis. cbn. rewrite Hs, Bool.andb_false_r. reflexivity. }
-      pose proof (take_mutex_spec a1 (setw mw 1 s1)) as TM.
-      rewrite T, getw_setw_same in TM.
-      destruct (take_mutex mw a1 (setw mw 1 s1)) as [a' s'].
+      pose proof (take_mutex_spec a1 sd) as TM.
+      rewrite T, GD in TM.
+      destruct (take_mutex mw a1 sd) as [a' s'].
       destruct TM as (P1 & P2 & P3 & P4 & P5 & _); [lia | rewrite USZ_val; lia |].
       repeat split; try lia; auto.
       * rewrite P4. exact Hs.
-      * eapply wframe_trans; [exact F1|]. eapply wframe_trans; [apply wframe_setw | exact P5].
+      * eapply wframe_trans; [exact F1|]. eapply wframe_trans; [apply wframe_setw|]. eapply wframe_trans; [|exact P5].
+        apply wframe_words. unfold sd. apply drop_listener_words.
     + destruct (getw mw s1 =? 1) eqn:E1.
       * specialize (IH (set_lis (Some (snd (listen me s))) a) s1). cbn [a_starved a_mutex set_lis] in IH.
         specialize (IH Hs Hm). rewrite G1 in IH. specialize (IH Hb).
@@ -186,15 +189,19 @@ Proof.
     dstep (cas mw 2 3 s1) s2 prev. rewrite cas_snd, cas_fst. rewrite G1.
     set (a1 := set_lis (Some (snd (listen me s))) a).
     destruct (getw mw s =? 2) eqn:E2.
-    + assert (T : ticket a1 = 2).
-      { unfold ticket, a1, set_lis. cbn. rewrite Hs, Hm. reflexivity. }
-      pose proof (take_mutex_spec a1 (setw mw 3 s1)) as TM.
-      rewrite T, getw_setw_same in TM.
-      destruct (take_mutex mw a1 (setw mw 3 s1)) as [a' s'].
+    + set (a0 := set_lis None a1).
+      set (sd := drop_listener me (snd (listen me s)) (setw mw 3 s1)).
+      assert (GD : getw mw sd = 3) by (unfold sd; rewrite getw_drop_listener, getw_setw_same; reflexivity).
+      assert (T : ticket a0 = 2).
+      { unfold ticket, a0, a1, set_lis. cbn. rewrite Hs, Hm. reflexivity. }
+      pose proof (take_mutex_spec a0 sd) as TM.
+      rewrite T, GD in TM.
+      destruct (take_mutex mw a0 sd) as [a' s'].
       destruct TM as (P1 & P2 & P3 & P4 & P5 & _); [lia | rewrite USZ_val; lia |].
       assert (getw mw s = 2) by lia.
       repeat split; try lia; auto; try (rewrite H; reflexivity);
-        (eapply wframe_trans; [exact F1|]; eapply wframe_trans; [apply wframe_setw | exact P5]).
+        (eapply wframe_trans; [exact F1|]; eapply wframe_trans; [apply wframe_setw|]; eapply wframe_trans; [|exact P5];
+         apply wframe_words; unfold sd; apply drop_listener_words).
     + destruct (getw mw s mod 2 =? 1) eqn:Od.
       * specialize (IH a1 s1). cbn [a_starved a_mutex set_lis a1] in IH.
         specialize (IH Hs Hm). rewrite G1 in IH. specialize (IH H2 Hb).
